@@ -53,6 +53,20 @@ StrPool == <<
   <<223, 191>>, <<224, 160, 128>>, <<237, 159, 191>>, <<238, 128, 128>>, <<239, 191, 191>>, <<239, 191, 189>>,
   <<240, 144, 128, 128>>, <<240, 159, 152, 128>>, <<244, 143, 191, 191>>, <<226, 128, 168>>, <<226, 128, 169>>, <<239, 187, 191>>, <<194, 133>>, <<194, 160>>
 >>
+\* long strings: the writer switches to long brackets at >= 60 bytes (or >= 20 bytes with >= 6 newlines): every byte class
+\* that matters inside a long bracket (CR, CRLF, LF CR, TAB, FF, closing-bracket look-alikes, a leading newline, quotes,
+\* a backslash, NUL, non-ASCII) in the middle, at the start and at the end of such a string
+Fill == [i \in 1..31 |-> 120]
+Mid(b) == Fill \o b \o Fill
+LongPool == <<
+  Mid(<<13>>), Mid(<<13, 10>>), Mid(<<10, 13>>), Mid(<<10>>), Mid(<<9>>), Mid(<<12>>), Mid(<<11>>), Mid(<<93, 93>>), Mid(<<93, 61, 93>>),
+  Mid(<<34>>), Mid(<<39>>), Mid(<<92>>), Mid(<<92, 110>>), Mid(<<0>>), Mid(<<195, 169>>), Mid(<<127>>), Mid(<<32>>),
+  <<10>> \o Fill \o Fill, <<13>> \o Fill \o Fill, <<13, 10>> \o Fill \o Fill, Fill \o Fill \o <<93>>, Fill \o Fill \o <<93, 61>>,
+  Fill \o Fill \o <<13>>, Fill \o Fill \o <<10>>, Fill \o <<93, 93>> \o Fill \o <<93, 61>>,
+  <<97, 13, 10, 98, 13, 10, 99, 13, 10, 100, 13, 10, 101, 13, 10, 102, 13, 10, 103, 13, 10>>,            \* 7 CRLF lines, 21 bytes
+  <<97, 98, 10, 99, 100, 10, 101, 102, 10, 103, 104, 10, 105, 106, 10, 107, 108, 10, 109, 110>>,          \* 6 LF, 20 bytes
+  <<97, 98, 10, 99, 100, 10, 101, 102, 10, 103, 104, 10, 105, 106, 10, 107, 108, 13, 109, 110>>           \* 5 LF + 1 CR
+>>
 NumPool == <<
   "0", "-0", "0.0", "-0.0", "1", "-1", "1.0", "42", "255", "-255", "65536", "4294967296", "123456789012",
   "0.5", "-1.5", "3.14159", "0.1", "0.2", "0.30000000000000004", "1.0000000000000002", "0.000001", "123456.789",
@@ -83,6 +97,9 @@ StrFam == UNION { LET sv == StrPool[i] IN LET nx == StrPool[(i % Len(StrPool)) +
                     DObj(<<U("o")>>, <<DObj(<<U("i")>>, <<DArr(<<DStr(sv)>>)>>)>>) }
                 : i \in 1..Len(StrPool) }
          \cup { DArr([i \in 1..Len(StrPool) |-> DStr(StrPool[i])]) }                  \* every string in one array
+         \cup UNION { LET sv == LongPool[i] IN
+                      { DStr(sv), DArr(<<DStr(sv), One>>), DObj(<<U("v")>>, <<DStr(sv)>>), DObj(<<sv>>, <<One>>) }          \* also as a KEY
+                    : i \in 1..Len(LongPool) }
 NumVals == {DNum(NumPool[i]) : i \in 1..Len(NumPool)} \cup SeqSet(SpecialNums)
 NumFam == UNION { { n, DArr(<<n>>), DObj(<<U("n")>>, <<n>>), DArr(<<One, n, DNum("2")>>) } : n \in NumVals }
          \cup { DArr([i \in 1..Len(NumPool) |-> DNum(NumPool[i])]) }
